@@ -368,7 +368,8 @@ impl Action for AbsAction {
     fn execute(&self, arguments: &[Data], _global: &GlobalData) -> Result<Data, String> {
         if arguments.len() == 1 {
             match &arguments[0] {
-                Data::Integer(value) => Ok(Data::Integer(value.abs())),
+                // (saturating like the other integer operations: i64::MIN has no positive counterpart)
+                Data::Integer(value) => Ok(Data::Integer(value.saturating_abs())),
                 Data::Double(value) => Ok(Data::Double(value.abs())),
                 _ => Err("Wrong argument type for 'abs'.".to_string()),
             }
@@ -724,10 +725,8 @@ impl Datamodel for RFsmExpressionDatamodel {
         //  4. Return true.
         let r = match self.execute_internal(script, false) {
             Ok(val) => match val.arc.lock().unwrap().deref() {
-                Data::Integer(v) => {
-                    // NaN Test
-                    Ok(!(v != v || v.abs() == 0))
-                }
+                // (not via abs(): i64::MIN has no absolute value)
+                Data::Integer(v) => Ok(*v != 0),
                 Data::Double(v) => Ok(!(v != v || v.abs() == 0f64)),
                 Data::Source(s) => Ok(!s.is_empty()),
                 Data::String(s) => Ok(!s.is_empty()),
